@@ -89,6 +89,15 @@ def run(ctx, rep):
                     resets.setdefault(fl[0], []).append(n.split('::')[-1])
                 elif fl and n.endswith('IndexMut<I>>::index_mut'):
                     resets.setdefault(fl[0], []).append('partial:element')
+            # a setter of the VM called on the machine itself (`self.jump(0)`): the fields it assigns on every path
+            if n.startswith('vm::VM::') and n in F.fns and fn.alias_root(op_base_local(t['args'][0]) or -1) == 1:
+                g = F.fns[n]
+                if len(g.blocks) <= 3:
+                    for b2, si2, st2 in g.stmts():
+                        if st2['k'] == 'assign' and g.alias_root(st2['place']['local']) == 1:
+                            fl2 = place_fields(st2['place'])
+                            if len(fl2) == 1:
+                                resets.setdefault(fl2[0], []).append('assigned')
     rep.table('vm_field_resets', resets)
     for f_ in fields:
         if f_ in PERSISTENT:
